@@ -144,9 +144,6 @@ func (ws *wstate) classify(app *fiber.App, ci int, tbl []entry, mi, pi int, ref 
 	}
 
 	ov, lastOv := ovAt(k)
-	if lastOv >= 0 {
-		ov = int(ref.eff[lastOv]) // name the override that last moved the scan to another slice (1 path, 2 method)
-	}
 	mK, pK := int(ref.stM[k]), int(ref.stP[k])
 	prev, e, ob := -1, -1, -1
 	if k > 0 {
@@ -198,8 +195,8 @@ func (ws *wstate) classify(app *fiber.App, ci int, tbl []entry, mi, pi int, ref 
 	}
 	if ov != 0 {
 		what := "after Path()/Method() the scan continues at the old numeric index inside a different bucket / method stack, so later-registered matching entries are skipped or already-passed entries run (again)"
-		if ov == 2 {
-			return fmt.Sprintf("override-method-cursor-reuse effect=%s", effect), what
+		if ov != 1 { // a method override (alone or combined) switches the method stack: the bucket labels say nothing more
+			return fmt.Sprintf("override-%s-cursor-reuse effect=%s", ovNamesShort[ov], effect), what
 		}
 		oldL := bucketLabel(app, ci, int(ref.stM[lastOv]), int(ref.stP[lastOv]))
 		newL := bucketLabel(app, ci, int(ref.stM[lastOv+1]), int(ref.stP[lastOv+1]))
